@@ -1,7 +1,5 @@
 package main
 
-func ruleE0(p *Prog) []string { return nil }
-
 func runFixtures(prop string) (fails []string, log []string) { return nil, nil }
 
 func runThorough(repo string, rule *PropertyRule, res *RunResult, p *Prog) {}
